@@ -77,6 +77,15 @@ func (g *guarded) place(n int) []byte {
 	return g.mem[g.data-n : g.data : g.data]
 }
 
+// placeCap is place with spare capacity that lies in the protected page: Go code that relies on
+// cap() rather than len() for its bounds faults when it touches src[len(src):cap(src)].
+func (g *guarded) placeCap(n int) []byte {
+	if n > g.data {
+		panic("guarded buffer too small")
+	}
+	return g.mem[g.data-n : g.data : len(g.mem)]
+}
+
 const canary = 0xC5
 
 type arena struct{ buf []byte }
@@ -135,6 +144,47 @@ func callDecode(src, dst, dict []byte) (n int, err error, panicked string) {
 type decRunner struct {
 	as, ad, ac arena
 	gs, gd, gc *guarded
+	fs, fd, fo [2][]byte
+}
+
+const flowSpare = 4096
+
+// confined runs the decode twice with different bytes in the spare capacity of src and dict
+// (src[len(src):cap(src)], dict[len(dict):cap(dict)]): the result and the whole destination must be
+// the same, or the decoder read outside the slices.  (The portable decoder recovers from its own
+// panics, a fault at a protected page included, so the guard layouts cannot see such a read.)
+func (r *decRunner) confined(srcB, dictB []byte, dstLen int, fill func(i int) byte) bool {
+	var res [2]struct {
+		n   int
+		err bool
+		p   string
+	}
+	for k, pat := range []byte{0x11, 0xEE} {
+		r.fs[k] = grow(r.fs[k], len(srcB)+flowSpare)
+		r.fd[k] = grow(r.fd[k], len(dictB)+flowSpare)
+		r.fo[k] = grow(r.fo[k], dstLen)
+		copy(r.fs[k], srcB)
+		copy(r.fd[k], dictB)
+		for i := len(srcB); i < len(r.fs[k]); i++ {
+			r.fs[k][i] = pat
+		}
+		for i := len(dictB); i < len(r.fd[k]); i++ {
+			r.fd[k][i] = pat
+		}
+		for i := range r.fo[k] {
+			r.fo[k][i] = fill(i)
+		}
+		n, err, p := callDecode(r.fs[k][:len(srcB)], r.fo[k], r.fd[k][:len(dictB)])
+		res[k].n, res[k].err, res[k].p = n, err != nil, p
+	}
+	return res[0] == res[1] && bytes.Equal(r.fo[0], r.fo[1])
+}
+
+func grow(b []byte, n int) []byte {
+	if cap(b) < n {
+		return make([]byte, n)
+	}
+	return b[:n]
 }
 
 func newDecRunner() *decRunner {
@@ -146,6 +196,8 @@ func (r *decRunner) one(srcB, dictB []byte, dstLen int, layout string, fill func
 	var src, dst, dict []byte
 	if layout == "guard" {
 		src, dst, dict = r.gs.place(len(srcB)), r.gd.place(dstLen), r.gc.place(len(dictB))
+	} else if layout == "guardcap" {
+		src, dst, dict = r.gs.placeCap(len(srcB)), r.gd.placeCap(dstLen), r.gc.placeCap(len(dictB))
 	} else {
 		src, dst, dict = r.as.slot(len(srcB), 7), r.ad.slot(dstLen, 64+dstLen%5), r.ac.slot(len(dictB), 3)
 	}
@@ -156,7 +208,7 @@ func (r *decRunner) one(srcB, dictB []byte, dstLen int, layout string, fill func
 	}
 	n, err, p := callDecode(src, dst, dict)
 	o := decObs{Err: err != nil, N: n, Panicked: p, Canary: true}
-	if layout != "guard" {
+	if layout == "canary" {
 		o.Canary = r.as.intact(len(srcB)) && r.ad.intact(dstLen) && r.ac.intact(len(dictB))
 	}
 	o.SrcOK = bytes.Equal(src, srcB)
@@ -207,7 +259,7 @@ func blkRun(args []string) error {
 		var first decObs
 		stable, safe := true, true
 		k := 0
-		for _, layout := range []string{"canary", "guard"} {
+		for _, layout := range []string{"canary", "guard", "guardcap"} {
 			for _, f := range fills {
 				o := r.one(src, dict, c.DstLen, layout, f)
 				if k == 0 {
@@ -228,6 +280,9 @@ func blkRun(args []string) error {
 			}
 		}
 		_ = safe
+		if !r.confined(src, dict, c.DstLen, fills[2]) {
+			first.Canary = false
+		}
 		h := sha1.Sum(first.out)
 		e := rec{"ev": "decode", "case": c.ID, "err": first.Err, "n": first.N, "panicked": first.Panicked,
 			"canary": first.Canary, "srcok": first.SrcOK, "dictok": first.DictOK, "stable": stable,
@@ -244,7 +299,7 @@ func blkRun(args []string) error {
 	if err := w.close(); err != nil {
 		return err
 	}
-	printJSON(map[string]int{"cases": n, "executions": n * 6})
+	printJSON(map[string]int{"cases": n, "executions": n * 11})
 	return nil
 }
 
